@@ -5,7 +5,7 @@ From PV Require Export C20.Spec.
 
 Definition res_eqb (a b : res) : bool :=
   match a, b with
-  | RNoSuch, RNoSuch | RZombie, RZombie | RDenied, RDenied | RRaw, RRaw | RVal, RVal => true
+  | RNoSuch, RNoSuch | RZombie, RZombie | RDenied, RDenied | RRaw, RRaw | RVal, RVal | RTimeout, RTimeout => true
   | _, _ => false
   end.
 Lemma res_eqb_eq a b : res_eqb a b = true <-> a = b.
@@ -67,6 +67,29 @@ Definition gout_ok (want : option res) (g : gout) : bool :=
 Definition block_spec_ok (b : lblock) : bool :=
   forallb2 (fun c g => known_pid0_unlisted (l_plat b) (l_meth b) (l_site b) c
                        || gout_ok (demanded (l_plat b) (l_meth b) (l_site b) c) g) (conds (l_plat b)) (l_outs b).
+
+(* --- two native calls / retries / wait *)
+Definition pblock_ok (b : pblock) : bool :=
+  forallb2 (fun q g => match q with (e1, e2, s, z) =>
+              (pair_known (pb_plat b) (pb_meth b) (pb_site1 b) (pb_site2 b) e1 e2 s z
+               || gout_ok (pair_demanded (pb_plat b) (pb_meth b) (pb_site1 b) (pb_site2 b) e1 e2 s z) g)
+              && gout_ok (Some (pair_outcome (pb_plat b) (pb_meth b) (pb_site1 b) (pb_site2 b) e1 e2 s z)) g end)
+           (pair_conds (pb_plat b)) (pb_outs b).
+Definition pblocks_complete (bs : list pblock) : bool :=
+  forallb (fun p => forallb (fun t => match t with (m, s1, s2) =>
+             existsb (fun b => plat_eqb (pb_plat b) p && String.eqb (pb_meth b) m && String.eqb (pb_site1 b) s1
+                               && String.eqb (pb_site2 b) s2) bs end) (pair_sites p)) all_plats.
+Definition rrow_ok (r : rrow) : bool :=
+  gout_ok (retry_demanded (rr_meth r) (rr_site r) (rr_k r) (rr_then r) Alive false) (rr_out r)
+  && gout_ok (Some (retry_outcome (rr_meth r) (rr_site r) (rr_k r) (rr_then r) Alive false)) (rr_out r).
+Definition wrow_ok (r : wrow) : bool :=
+  gout_ok (Some (wait_demanded (wr_plat r) (wr_scen r) (wr_state r))) (wr_out r)
+  && gout_ok (Some (wait_outcome (wr_plat r) (wr_scen r) (wr_state r))) (wr_out r).
+Definition wrows_complete (rs : list wrow) : bool :=
+  forallb (fun p => forallb (fun s => existsb (fun r => plat_eqb (wr_plat r) p
+                      && match wr_scen r with WPlain => true | _ => false end
+                      && match wr_state r, s with Alive, Alive | Zombie, Zombie | Gone, Gone => true | _, _ => false end) rs)
+                    [Alive; Zombie; Gone]) all_plats.
 
 (* --- every native status code: ZombieProcess iff the code means zombie *)
 Definition scond (p : plat) (code : string) (pid0 : bool) : cond := Build_cond ESRCH (state_of_code p code) pid0.
